@@ -326,10 +326,12 @@ class InvRangesAssembler(RangesAssembler):
         base = self.assembler.range.ranges[0]
         sheet_id = base['sheet_id']
         _name = f'{sheet_id}!' if sheet_id else ''
+        # Whole rows / columns start at 0 (see `_get_indices_intersection`).
+        r0, n0 = int(base['r1']) or 1, base['n1'] or 1
         for d in self.assembler.outputs.values():
             if isinstance(d, tuple):
                 c, r = d
-                i, j = r - int(base['r1']), c - base['n1']
+                i, j = r - r0, c - n0
                 # 1x1 array: a bare `sh.EMPTY` would mean "no value".
                 res.append(value.value[i:i + 1, j:j + 1])
             else:
@@ -347,11 +349,13 @@ class InvRangesAssembler(RangesAssembler):
         if dsp is not None:
             sol = dsp.solution
             for n, r in self.assembler.missing:
+                if not (n and r):  # Index 0 of a whole row / column.
+                    continue
                 c = _index2col(n)
                 ref = '{}{}'.format(c, r)
                 name = _name + ref
                 sol[name] = Ranges().set_value({
                     'r1': r, 'r2': r, 'c1': c, 'c2': c, 'n1': n, 'n2': n,
                     'ref': ref, 'name': name, 'sheet_id': sheet_id
-                }, value.value[r - int(base['r1']), n - base['n1']])
+                }, value.value[r - r0, n - n0])
         return res
